@@ -95,11 +95,18 @@ int backup_copy_file(const char *filename, const vector<UINT8> &data)
    {
       size_t retval   = fwrite(data.data(), data.size(), 1, thefile);
       int    my_errno = errno;
+      bool   ok       = (  retval == 1
+                        || data.empty());
 
-      fclose(thefile);
+      // the data may still be buffered: a failing flush is a failed backup
+      if (  fclose(thefile) != 0
+         && ok)
+      {
+         my_errno = errno;
+         ok       = false;
+      }
 
-      if (  retval == 1
-         || data.empty())
+      if (ok)
       {
          return(EX_OK);
       }
@@ -142,7 +149,16 @@ void backup_create_md5_file(const char *filename)
    {
       md5.Update(buf, len);
    }
+   bool failed = (ferror(thefile) != 0);
+
    fclose(thefile);
+
+   if (failed)
+   {
+      LOG_FMT(LERR, "%s: fread(%s) failed: %s (%d)\n",
+              __func__, filename, strerror(errno), errno);
+      exit(EX_IOERR);
+   }
    md5.Final(dig);
 
    snprintf(newpath, sizeof(newpath), "%s%s", filename, UNC_BACKUP_MD5_SUFFIX);
@@ -158,7 +174,24 @@ void backup_create_md5_file(const char *filename)
               dig[8], dig[9], dig[10], dig[11],
               dig[12], dig[13], dig[14], dig[15],
               path_basename(filename));
+      failed = (ferror(thefile) != 0);
 
-      fclose(thefile);
+      if (fclose(thefile) != 0)
+      {
+         failed = true;
+      }
+   }
+   else
+   {
+      failed = true;
+   }
+
+   if (failed)
+   {
+      // without a valid md5 the next run would take uncrustify's own output
+      // for a user edit and overwrite the backup with it: tell the user
+      LOG_FMT(LERR, "%s: Failed to write %s: %s (%d)\n",
+              __func__, newpath, strerror(errno), errno);
+      exit(EX_IOERR);
    }
 } // backup_create_md5_file
